@@ -2072,4 +2072,492 @@ theorem specUpdate_good (items : List (Path × Entry)) (kids : Kids) (hw : WF (.
         | ok u => cases u; exact ih s' hwm (fun kv hkv => hv kv (by simp [hkv]))
 
 
+/-! ### select -/
+
+/-- first components of the keys -/
+def headsOf (keys : List Path) : List String := keys.filterMap List.head?
+
+theorem headsOf_cons (p : Path) (keys : List Path) :
+    headsOf (p :: keys) = (match p with | k :: _ => [k] | [] => []) ++ headsOf keys := by
+  simp only [headsOf, List.filterMap_cons]
+  cases p <;> rfl
+
+/-- first loop of `_select` (all keys non-empty): `source` receives the entries named by the first components (when
+bound), the nested sub-keys are grouped, the one-component keys are remembered as selected whole; a strict call
+fails as soon as a first component is unbound -/
+theorem selectScan_spec (strict : Bool) (kids : Kids) (keys : List Path) (src : Kids) (grp : List (String × List Path))
+    (whole : List String) (hk : ∀ p ∈ keys, p ≠ []) (src' : Kids) (grp' : List (String × List Path)) (whole' : List String)
+    (h : selectScan strict kids keys src grp whole = .ok (src', grp', whole')) :
+    (∀ k, dget k src' = if k ∈ headsOf keys ∧ (dget k kids).isSome then dget k kids else dget k src) ∧
+    (∀ k, lookupG k grp' = lookupG k grp ++ (if (dget k kids).isSome then tailsOf k keys else [])) ∧
+    (∀ k, whole'.contains k = (whole.contains k || (keys.contains [k] && (dget k kids).isSome))) ∧
+    ((grp.map (·.1)).Nodup → (grp'.map (·.1)).Nodup) ∧
+    (strict = true → ∀ p ∈ keys, ∀ k, p.head? = some k → (dget k kids).isSome) := by
+  induction keys generalizing src grp whole with
+  | nil =>
+    simp only [selectScan] at h; simp at h; obtain ⟨rfl, rfl, rfl⟩ := h
+    simp [headsOf, tailsOf]
+  | cons p ps ih =>
+    have hps : ∀ q ∈ ps, q ≠ [] := fun q hq => hk q (by simp [hq])
+    match p, hk p (by simp) with
+    | k :: sub, _ =>
+      simp only [selectScan] at h
+      cases hd : dget k kids with
+      | none =>
+        simp only [hd] at h
+        cases strict with
+        | true => simp at h
+        | false =>
+          simp only [Bool.false_eq_true, if_false] at h
+          obtain ⟨h1, h2, h3, h4, h5⟩ := ih src grp whole hps h
+          refine ⟨fun k' => ?_, fun k' => ?_, fun k' => ?_, h4, by simp⟩
+          · rw [h1 k', headsOf_cons]
+            by_cases hkk : k' = k
+            · subst hkk; simp [hd]
+            · have : ¬ k = k' := fun e => hkk e.symm
+              simp [this, hkk]
+          · rw [h2 k', tailsOf_cons]
+            by_cases hkk : k = k'
+            · subst hkk; simp [hd]
+            · simp [hkk]
+          · rw [h3 k']
+            by_cases hkk : k' = k
+            · subst hkk; simp [hd]
+            · have : (([k'] : Path) == k :: sub) = false := by simp [hkk]
+              simp [List.contains_cons, this, hkk]
+      | some v =>
+        simp only [hd] at h
+        by_cases hs : sub = []
+        · subst hs
+          simp only [if_true] at h
+          obtain ⟨h1, h2, h3, h4, h5⟩ := ih (dset k v src) grp (k :: whole) hps h
+          refine ⟨fun k' => ?_, fun k' => ?_, fun k' => ?_, h4, fun hst p hp k' hk' => ?_⟩
+          · rw [h1 k', headsOf_cons]
+            by_cases hkk : k' = k
+            · subst hkk; simp [hd, dget_dset_same]
+            · have hne : k ≠ k' := fun e => hkk e.symm
+              have : ¬ k = k' := hne
+              simp [this, hkk, dget_dset_other _ hne]
+          · rw [h2 k', tailsOf_cons]; simp
+          · rw [h3 k']
+            by_cases hkk : k' = k
+            · subst hkk; simp [hd]
+            · have : (([k'] : Path) == [k]) = false := by simp [hkk]
+              have h2' : (k' == k) = false := by simp [hkk]
+              simp [List.contains_cons, this, h2', hkk]
+          · simp only [List.mem_cons] at hp
+            rcases hp with rfl | hp
+            · simp at hk'; subst hk'; simp [hd]
+            · exact h5 hst p hp k' hk'
+        · simp only [hs, if_false] at h
+          obtain ⟨h1, h2, h3, h4, h5⟩ := ih (dset k v src) (groupAdd k sub grp) whole hps h
+          refine ⟨fun k' => ?_, fun k' => ?_, fun k' => ?_, fun hn => h4 (nodup_groupAdd _ _ _ hn), fun hst p hp k' hk' => ?_⟩
+          · rw [h1 k', headsOf_cons]
+            by_cases hkk : k' = k
+            · subst hkk; simp [hd, dget_dset_same]
+            · have hne : k ≠ k' := fun e => hkk e.symm
+              have : ¬ k = k' := hne
+              simp [this, hkk, dget_dset_other _ hne]
+          · rw [h2 k', lookupG_groupAdd, tailsOf_cons]
+            by_cases hkk : k' = k
+            · subst hkk; simp [hd, hs]
+            · have : ¬ k = k' := fun e => hkk e.symm
+              simp [hkk, this]
+          · rw [h3 k']
+            have : (([k'] : Path) == k :: sub) = false := by
+              cases sub with
+              | nil => exact absurd rfl hs
+              | cons a b => simp
+            simp [List.contains_cons, this, hs]
+          · simp only [List.mem_cons] at hp
+            rcases hp with rfl | hp
+            · simp at hk'; subst hk'; simp [hd]
+            · exact h5 hst p hp k' hk'
+
+
+
+/-- what the second loop of `_select` leaves in `source` for the group `(k, l)` (out of place) -/
+def GroupDone (f : List Path → Bool → Bool → Entry → Entry × Except Err Entry) (strict : Bool) (whole : List String)
+    (src srcF : Kids) (k : String) (l : List Path) : Prop :=
+  match dget k src with
+  | none => dget k srcF = none
+  | some child =>
+    if whole.contains k then dget k srcF = some child ∧ (strict = true → ∃ c, (f l true false child).2 = .ok c)
+    else ∃ c, (f l strict false child).2 = .ok c ∧ dget k srcF = some c
+
+theorem selectGroups_out (f : List Path → Bool → Bool → Entry → Entry × Except Err Entry) (strict : Bool)
+    (whole : List String) (G : List (String × List Path)) (cur src : Kids) (hG : (G.map (·.1)).Nodup) :
+    (selectGroups f strict false whole G cur src).1 = cur ∧
+    ∀ srcF, (selectGroups f strict false whole G cur src).2 = .ok srcF →
+      (∀ k, k ∉ G.map (·.1) → dget k srcF = dget k src) ∧
+      (∀ k l, (k, l) ∈ G → GroupDone f strict whole src srcF k l) := by
+  induction G generalizing src with
+  | nil =>
+    simp only [selectGroups]
+    exact ⟨trivial, fun srcF h => by simp at h; subst h; exact ⟨fun _ _ => rfl, by simp⟩⟩
+  | cons a r ih =>
+    obtain ⟨k, subs⟩ := a
+    simp only [List.map_cons, List.nodup_cons] at hG
+    -- the tail never touches `k`
+    have tail_k : ∀ (src2 : Kids) srcF, (selectGroups f strict false whole r cur src2).2 = .ok srcF → dget k srcF = dget k src2 :=
+      fun src2 srcF h => ((ih src2 hG.2).2 srcF h).1 k hG.1
+    simp only [selectGroups]
+    cases hd : dget k src with
+    | none =>
+      simp only []
+      obtain ⟨h1, h2⟩ := ih src hG.2
+      refine ⟨h1, fun srcF h => ?_⟩
+      obtain ⟨ha, hb⟩ := h2 srcF h
+      refine ⟨fun k' hk' => ha k' (by simp only [List.map_cons, List.mem_cons, not_or] at hk'; exact hk'.2), fun k' l hm => ?_⟩
+      simp only [List.mem_cons, Prod.mk.injEq] at hm
+      rcases hm with ⟨rfl, rfl⟩ | hm
+      · simp only [GroupDone, hd]; rw [tail_k src srcF h, hd]
+      · exact hb k' l hm
+    | some child =>
+      simp only []
+      by_cases hw : whole.contains k = true
+      · simp only [hw, if_true]
+        cases strict with
+        | false =>
+          simp only [Bool.false_eq_true, if_false]
+          obtain ⟨h1, h2⟩ := ih src hG.2
+          refine ⟨h1, fun srcF h => ?_⟩
+          obtain ⟨ha, hb⟩ := h2 srcF h
+          refine ⟨fun k' hk' => ha k' (by simp only [List.map_cons, List.mem_cons, not_or] at hk'; exact hk'.2), fun k' l hm => ?_⟩
+          simp only [List.mem_cons, Prod.mk.injEq] at hm
+          rcases hm with ⟨rfl, rfl⟩ | hm
+          · simp only [GroupDone, hd, hw, if_true]; rw [tail_k src srcF h, hd]; simp
+          · exact hb k' l hm
+        | true =>
+          simp only [if_true]
+          cases hf : (f subs true false child).2 with
+          | error e => simp only []; exact ⟨trivial, fun srcF h => by simp at h⟩
+          | ok c =>
+            simp only []
+            obtain ⟨h1, h2⟩ := ih src hG.2
+            refine ⟨h1, fun srcF h => ?_⟩
+            obtain ⟨ha, hb⟩ := h2 srcF h
+            refine ⟨fun k' hk' => ha k' (by simp only [List.map_cons, List.mem_cons, not_or] at hk'; exact hk'.2), fun k' l hm => ?_⟩
+            simp only [List.mem_cons, Prod.mk.injEq] at hm
+            rcases hm with ⟨rfl, rfl⟩ | hm
+            · simp only [GroupDone, hd, hw, if_true]; rw [tail_k src srcF h, hd]; exact ⟨rfl, fun _ => ⟨c, hf⟩⟩
+            · exact hb k' l hm
+      · have hw' : whole.contains k = false := by simpa using hw
+        simp only [hw', Bool.false_eq_true, if_false]
+        cases hf : f subs strict false child with
+        | mk child' o =>
+          cases o with
+          | error e => simp only []; exact ⟨trivial, fun srcF h => by simp at h⟩
+          | ok c =>
+            simp only []
+            obtain ⟨h1, h2⟩ := ih (dset k c src) hG.2
+            refine ⟨h1, fun srcF h => ?_⟩
+            obtain ⟨ha, hb⟩ := h2 srcF h
+            refine ⟨fun k' hk' => ?_, fun k' l hm => ?_⟩
+            · simp only [List.map_cons, List.mem_cons, not_or] at hk'
+              rw [ha k' hk'.2, dget_dset_other _ (fun e => hk'.1 e.symm)]
+            · simp only [List.mem_cons, Prod.mk.injEq] at hm
+              rcases hm with ⟨rfl, rfl⟩ | hm
+              · simp only [GroupDone, hd, hw', Bool.false_eq_true, if_false]
+                refine ⟨c, by rw [hf], ?_⟩
+                rw [tail_k _ srcF h, dget_dset_same]
+              · -- a later group: its entry of `source` was not touched by this one
+                have hne : k ≠ k' := by
+                  intro e; subst e; exact hG.1 (List.mem_map_of_mem (f := (·.1)) hm)
+                have := hb k' l hm
+                simp only [GroupDone, dget_dset_other _ hne] at this ⊢
+                exact this
+
+
+
+theorem mem_tailsOf_iff {k : String} {keys : List Path} {q : Path} : q ∈ tailsOf k keys ↔ q ≠ [] ∧ (k :: q) ∈ keys := by
+  constructor
+  · exact mem_tailsOf
+  · rintro ⟨h1, h2⟩
+    simp only [tailsOf, List.mem_filterMap]
+    exact ⟨k :: q, h2, by simp [h1]⟩
+
+theorem mem_headsOf_iff {k : String} {keys : List Path} : k ∈ headsOf keys ↔ ∃ r, (k :: r) ∈ keys := by
+  simp only [headsOf, List.mem_filterMap]
+  constructor
+  · rintro ⟨p, hp, hh⟩
+    cases p with
+    | nil => simp at hh
+    | cons a b => simp at hh; subst hh; exact ⟨b, hp⟩
+  · rintro ⟨r, hr⟩; exact ⟨k :: r, hr, rfl⟩
+
+theorem isLeaf_lookup_nil {e : Entry} {nt : Bool} {v : Nat} (h : lookup [] e = some (.leaf nt v)) : e = .leaf nt v := by
+  simpa [lookup] using h
+
+/-- a key that is a prefix of `k :: rest` is `[k]` or `k :: q'` with `q'` a non-empty prefix of `rest` -/
+theorem prefix_cons_cases {q : Path} {k : String} {rest : Path} (hq : q ≠ []) (h : isPrefix q (k :: rest) = true) :
+    q = [k] ∨ ∃ q', q' ≠ [] ∧ q = k :: q' ∧ isPrefix q' rest = true := by
+  cases q with
+  | nil => exact absurd rfl hq
+  | cons a q' =>
+    simp only [isPrefix, Bool.and_eq_true, beq_iff_eq] at h
+    obtain ⟨rfl, h2⟩ := h
+    cases q' with
+    | nil => exact Or.inl rfl
+    | cons b c => exact Or.inr ⟨b :: c, by simp, rfl, h2⟩
+
+
+
+theorem select_leaves (n : Nat) : ∀ (keys : List Path) (strict : Bool) (kids : Kids) (r : Entry),
+    (∀ p ∈ keys, p ≠ [] ∧ p.length ≤ n) →
+    (selectF (n + 1) keys strict false (.node kids)).2 = .ok r →
+    ∃ rk, r = .node rk ∧ SelectsLeaves keys kids rk := by
+  induction n with
+  | zero =>
+    intro keys strict kids r hk h
+    -- no key can exist
+    have hke : keys = [] := by
+      cases keys with
+      | nil => rfl
+      | cons p ps => have := hk p (by simp); cases p <;> simp at this
+    subst hke
+    simp [selectF, selectScan, selectGroups] at h
+    subst h
+    exact ⟨[], rfl, fun p nt v hp => by cases p <;> simp [lookup_cons_node, dget] at hp ⊢⟩
+  | succ m ih =>
+    intro keys strict kids r hk h
+    simp only [selectF] at h
+    cases hscan : selectScan strict kids keys [] [] [] with
+    | error e => simp [hscan] at h
+    | ok res =>
+      obtain ⟨src0, G, whole⟩ := res
+      simp only [hscan] at h
+      obtain ⟨ha, hb, hc, hd, _⟩ := selectScan_spec strict kids keys [] [] [] (fun p hp => (hk p hp).1) src0 G whole hscan
+      have hGn := hd (by simp)
+      obtain ⟨_, hgroups⟩ := selectGroups_out (selectF (m + 1)) strict whole G kids src0 hGn
+      cases hg : selectGroups (selectF (m + 1)) strict false whole G kids src0 with
+      | mk cur R =>
+        rw [hg] at h hgroups
+        cases R with
+        | error e => simp at h
+        | ok srcF =>
+          simp at h; subst h
+          obtain ⟨hout, hin⟩ := hgroups srcF rfl
+          refine ⟨srcF, rfl, ?_⟩
+          intro p nt v hp
+          cases p with
+          | nil => exact absurd rfl hp
+          | cons k rest =>
+            rw [lookup_cons_node, lookup_cons_node]
+            -- facts from the scan, specialised to `k`
+            have ha' := ha k; simp only [dget] at ha'
+            have hb' := hb k; simp only [lookupG, List.nil_append] at hb'
+            have hc' := hc k; simp only [List.contains_nil, Bool.false_or] at hc'
+            by_cases hkG : k ∈ G.map (·.1)
+            · -- a group exists for `k`
+              obtain ⟨⟨k0, l⟩, hm, hk0⟩ := List.mem_map.mp hkG
+              simp only at hk0; subst hk0
+              have hl := mem_lookupG hGn hm
+              have hdone := hin k0 l hm
+              simp only [GroupDone] at hdone
+              cases hs0 : dget k0 src0 with
+              | none =>
+                simp only [hs0] at hdone
+                rw [hdone]
+                simp only [Option.bind]
+                constructor
+                · intro h; simp at h
+                · rintro ⟨hl2, q, hq, hpre⟩
+                  exfalso
+                  -- then `k0` is bound and a key starts with it: `source` must hold it
+                  have hbound : (dget k0 kids).isSome = true := by
+                    cases hdk : dget k0 kids with
+                    | none => simp [hdk] at hl2
+                    | some c => rfl
+                  have hhead : k0 ∈ headsOf keys := by
+                    rcases prefix_cons_cases (hk q hq).1 hpre with rfl | ⟨q', _, rfl, _⟩
+                    · exact mem_headsOf_iff.mpr ⟨[], hq⟩
+                    · exact mem_headsOf_iff.mpr ⟨q', hq⟩
+                  rw [hs0] at ha'
+                  simp [hhead, hbound] at ha'
+                  rw [← ha'] at hbound; simp at hbound
+              | some child =>
+                simp only [hs0] at hdone
+                -- `child` is the receiver's entry
+                have hchild : dget k0 kids = some child := by
+                  rw [hs0] at ha'
+                  by_cases hcond : k0 ∈ headsOf keys ∧ (dget k0 kids).isSome = true
+                  · simp [hcond] at ha'; exact ha'.symm
+                  · simp [hcond] at ha'
+                have hbound : (dget k0 kids).isSome = true := by simp [hchild]
+                by_cases hw : whole.contains k0 = true
+                · simp only [hw, if_true] at hdone
+                  rw [hdone.1, hchild]
+                  have hmem : [k0] ∈ keys := by
+                    rw [hc'] at hw; simp at hw; exact hw.1
+                  constructor
+                  · intro h; exact ⟨h, [k0], hmem, by simp [isPrefix]⟩
+                  · intro h; exact h.1
+                · have hw' : whole.contains k0 = false := by simpa using hw
+                  simp only [hw', Bool.false_eq_true, if_false] at hdone
+                  obtain ⟨c, hfc, hsc⟩ := hdone
+                  have hnot : [k0] ∉ keys := by
+                    intro hmem; rw [hc'] at hw'; simp [hmem, hbound] at hw'
+                  have hl' : l = tailsOf k0 keys := by rw [← hl, hb']; simp [hbound]
+                  subst hl'
+                  rw [hsc, hchild]
+                  simp only [Option.bind]
+                  cases child with
+                  | leaf nt' v' => simp [selectF] at hfc
+                  | node ck =>
+                    have hkl : ∀ q ∈ tailsOf k0 keys, q ≠ [] ∧ q.length ≤ m := by
+                      intro q hq
+                      obtain ⟨h1, h2⟩ := mem_tailsOf hq
+                      have := (hk _ h2).2; simp at this
+                      exact ⟨h1, by omega⟩
+                    obtain ⟨rk', hrk, hsel⟩ := ih (tailsOf k0 keys) strict ck c hkl hfc
+                    subst hrk
+                    cases rest with
+                    | nil =>
+                      simp only [lookup]
+                      constructor
+                      · intro h; simp at h
+                      · intro h; simp at h
+                    | cons r1 r2 =>
+                      rw [hsel (r1 :: r2) nt v (by simp)]
+                      constructor
+                      · rintro ⟨h1, q', hq', hpre⟩
+                        exact ⟨h1, k0 :: q', (mem_tailsOf hq').2, by simp [isPrefix, hpre]⟩
+                      · rintro ⟨h1, q, hq, hpre⟩
+                        refine ⟨h1, ?_⟩
+                        rcases prefix_cons_cases (hk q hq).1 hpre with rfl | ⟨q', hq'ne, rfl, hpre'⟩
+                        · exact absurd hq hnot
+                        · exact ⟨q', mem_tailsOf_iff.mpr ⟨hq'ne, hq⟩, hpre'⟩
+            · -- no group for `k`: `source` kept what the scan put there
+              rw [hout k hkG]
+              have hlG : lookupG k G = [] := lookupG_absent k G hkG
+              by_cases hwk : [k] ∈ keys ∧ (dget k kids).isSome = true
+              · have hhead : k ∈ headsOf keys := mem_headsOf_iff.mpr ⟨[], hwk.1⟩
+                rw [ha']; simp only [hhead, hwk.2, and_self, if_true]
+                constructor
+                · intro h; exact ⟨h, [k], hwk.1, by simp [isPrefix]⟩
+                · intro h; exact h.1
+              · -- nothing selected under `k`
+                have hnone : dget k src0 = none ∨ ((dget k kids).isSome = true ∧ k ∈ headsOf keys) := by
+                  rw [ha']
+                  by_cases hcond : k ∈ headsOf keys ∧ (dget k kids).isSome = true
+                  · exact Or.inr ⟨hcond.2, hcond.1⟩
+                  · simp [hcond]
+                have hfalse : ¬ ((dget k kids).isSome = true ∧ k ∈ headsOf keys) := by
+                  rintro ⟨hbd, hh⟩
+                  obtain ⟨r', hr'⟩ := mem_headsOf_iff.mp hh
+                  have hr'ne : r' ≠ [] := by
+                    intro e; subst e; exact hwk ⟨hr', hbd⟩
+                  have : r' ∈ tailsOf k keys := mem_tailsOf_iff.mpr ⟨hr'ne, hr'⟩
+                  rw [hlG] at hb'; simp [hbd] at hb'
+                  rw [hb'] at this; simp at this
+                rcases hnone with hn | hn
+                · rw [hn]; simp only [Option.bind]
+                  constructor
+                  · intro h; simp at h
+                  · rintro ⟨hl2, q, hq, hpre⟩
+                    exfalso
+                    have hbound : (dget k kids).isSome = true := by
+                      cases hdk : dget k kids with
+                      | none => simp [hdk] at hl2
+                      | some c => rfl
+                    have hhead : k ∈ headsOf keys := by
+                      rcases prefix_cons_cases (hk q hq).1 hpre with rfl | ⟨q', _, rfl, _⟩
+                      · exact mem_headsOf_iff.mpr ⟨[], hq⟩
+                      · exact mem_headsOf_iff.mpr ⟨q', hq⟩
+                    exact hfalse ⟨hbound, hhead⟩
+                · exact absurd hn hfalse
+
+
+
+theorem selectGroups_inplace_result (f : List Path → Bool → Bool → Entry → Entry × Except Err Entry) (strict : Bool)
+    (whole : List String) (hf : ∀ subs s child, (f subs s true child).2 = (f subs s false child).2)
+    (G : List (String × List Path)) (cur cur' src : Kids) :
+    (selectGroups f strict true whole G cur src).2 = (selectGroups f strict false whole G cur' src).2 := by
+  induction G generalizing cur cur' src with
+  | nil => simp [selectGroups]
+  | cons a r ih =>
+    obtain ⟨k, subs⟩ := a
+    simp only [selectGroups]
+    cases hd : dget k src with
+    | none => exact ih cur cur' src
+    | some child =>
+      simp only []
+      by_cases hw : whole.contains k = true
+      · simp only [hw, if_true]
+        cases strict with
+        | false => simp only [Bool.false_eq_true, if_false]; exact ih cur cur' src
+        | true =>
+          simp only [if_true]
+          cases (f subs true false child).2 with
+          | error e => rfl
+          | ok c => exact ih cur cur' src
+      · have hw' : whole.contains k = false := by simpa using hw
+        simp only [hw', Bool.false_eq_true, if_false]
+        have := hf subs strict child
+        cases h1 : f subs strict true child with
+        | mk c1 o1 =>
+          cases h2 : f subs strict false child with
+          | mk c2 o2 =>
+            rw [h1, h2] at this; simp only at this; subst this
+            cases o1 with
+            | error e => rfl
+            | ok c => exact ih _ _ _
+
+/-- `select(inplace=True)` computes the same result as `select(inplace=False)`, and when it succeeds the receiver *is*
+that result; out of place the receiver is untouched -/
+theorem selectF_inplace (n : Nat) : ∀ (keys : List Path) (strict : Bool) (t : Entry),
+    (selectF n keys strict true t).2 = (selectF n keys strict false t).2 ∧
+    (∀ r, (selectF n keys strict true t).2 = .ok r → (selectF n keys strict true t).1 = r) ∧
+    (selectF n keys strict false t).1 = t := by
+  induction n with
+  | zero =>
+    intro keys strict t
+    cases t <;> simp [selectF]
+  | succ m ih =>
+    intro keys strict t
+    cases t with
+    | leaf nt v => simp [selectF]
+    | node kids =>
+      simp only [selectF]
+      cases hscan : selectScan strict kids keys [] [] [] with
+      | error e => simp
+      | ok res =>
+        obtain ⟨src0, G, whole⟩ := res
+        simp only []
+        have hres := selectGroups_inplace_result (selectF m) strict whole (fun subs s child => (ih subs s child).1) G kids kids src0
+        -- out of place the receiver's entries are never replaced
+        have hcur : ∀ (G : List (String × List Path)) (cur src : Kids),
+            (selectGroups (selectF m) strict false whole G cur src).1 = cur := by
+          intro G
+          induction G with
+          | nil => intro cur src; simp [selectGroups]
+          | cons a r ihG =>
+            intro cur src
+            obtain ⟨k, subs⟩ := a
+            simp only [selectGroups]
+            cases dget k src with
+            | none => exact ihG cur src
+            | some child =>
+              simp only []
+              split
+              · split
+                · split
+                  · rfl
+                  · exact ihG cur src
+                · exact ihG cur src
+              · split
+                · simp
+                · simp only [Bool.false_eq_true, if_false]; exact ihG _ _
+        cases h1 : selectGroups (selectF m) strict true whole G kids src0 with
+        | mk c1 R1 =>
+          cases h2 : selectGroups (selectF m) strict false whole G kids src0 with
+          | mk c2 R2 =>
+            rw [h1, h2] at hres; simp only at hres; subst hres
+            have := hcur G kids src0; rw [h2] at this; simp only at this; subst this
+            cases R1 with
+            | error e => simp
+            | ok srcF => simp
+
+
 end TdVerif.C04
